@@ -184,10 +184,11 @@ def _fingerprint(s):
 
 
 def explore(make, script_of, bound, judge, res, case, only=None, max_execs=None, point_hook=None,
-            closing_ticks=8, shard=None):
+            closing_ticks=8, shard=None, first=None):
     '''make() -> fresh System after set-up; script_of(system) -> script; judge(run) -> list of
     (key, detail).  Explores every choice vector whose total deviation cost is <= bound; with
-    only=<choices> re-executes exactly that vector (replay).'''
+    only=<choices> re-executes exactly that vector (replay).  first=<label>: only the vectors
+    whose FIRST deviation is the menu entry with that label (a slice of a deeper bound).'''
     stack = [(list(only) if only is not None else [], 0)]
     execs = 0
     if only is None and (not shard or shard[0] == 0):
@@ -241,5 +242,7 @@ def explore(make, script_of, bound, judge, res, case, only=None, max_execs=None,
                 continue            # another shard explores the deviations starting here
             for alt in range(1, len(run.costs[i])):
                 c2 = cost + run.costs[i][alt]
+                if first and not prefix and run.menus[i][alt] != first:
+                    continue
                 if c2 <= bound:
                     stack.append((taken[:i] + [alt], c2))
